@@ -10,9 +10,15 @@ package sniff
 //   c17udp  Sniffer.Check + Sniffer.UDP over real quic-go Initials, harness-built Initials,
 //           truncations, bit flips and junk (c17_udp_test.go)
 //
+//   c17udps the same executor as c17udp, restricted to datagrams that the sniffer must turn away
+//           before it gets to remove packet protection (truncated below the packet end, unknown
+//           version, declared length beyond the datagram, junk) and to whole packets aimed at
+//           targets the configuration excludes
+//
 // They are separate parts because the UDP side has two defects on this tree (in-place
 // decryption of the datagram, slice-bounds panic on a short datagram): a worker stops after a
-// few violations, and the TCP side must keep its full exploration budget regardless.
+// few violations, and the TCP side and the "turned away" UDP side must keep their full
+// exploration budget regardless, so that any other violation is still found and reported.
 //
 // The harness mirrors what core/server does with a RequestHook: Check first, TCP/UDP only
 // when Check returned true (server.go handleTCPRequest, udpIOImpl.Hook).
@@ -37,6 +43,7 @@ func TestSim(t *testing.T) {
 	hysim.Main(t,
 		&hysim.Harness{Name: "c17tcp", Gen: genTCP, Exec: execTCP},
 		&hysim.Harness{Name: "c17udp", Gen: genUDP, Exec: execUDP},
+		&hysim.Harness{Name: "c17udps", Gen: genUDPSafe, Exec: execUDP},
 	)
 }
 
